@@ -274,11 +274,6 @@ fn post_swap_line<T: Node + ?Sized>(b: &mut Buf, rest: &str) -> String {
     }
 }
 
-/// `replace` / `reset` / `set_variant` / `uminsert` / `uminsert_arr`: ops implemented by `set_data_inner`
-pub fn is_set_data_inner_line(rest: &str) -> bool {
-    matches!(rest.split(' ').next(), Some("replace" | "reset" | "set_variant" | "uminsert" | "uminsert_arr"))
-}
-
 pub fn run_swap_case<T: Node + ?Sized>(header_line: &str, hdr: &Header, src: &mut dyn OpSource, cx: &mut Cx) -> CaseOut {
     cx.rec.case(header_line);
     cx.journal_case(header_line);
@@ -302,9 +297,6 @@ pub fn run_swap_case<T: Node + ?Sized>(header_line: &str, hdr: &Header, src: &mu
         return out;
     };
     let mut swaps = 0u32;
-    // interim input class (see notes/C03_harness.md): after the swap, a `set_data_inner` op
-    // (replace / reset / set_variant / uminsert / uminsert_arr) ran to completion on a buffer
-    let mut sdi_after_swap = false;
     let mut fails: Vec<(&'static str, String)> = vec![];
     let mut n = 0usize;
     while let Some(line) = src.next(&gv(n)) {
@@ -320,11 +312,7 @@ pub fn run_swap_case<T: Node + ?Sized>(header_line: &str, hdr: &Header, src: &mu
             if swaps == 0 {
                 pre_swap_line::<T>(buf, &shape, rest, &mut fails)
             } else {
-                let r = post_swap_line::<T>(buf, rest);
-                if r == "cont" && is_set_data_inner_line(rest) {
-                    sdi_after_swap = true;
-                }
-                r
+                post_swap_line::<T>(buf, rest)
             }
         } else if let Some(rest) = line.strip_prefix("swap ") {
             let parts: Vec<&str> = rest.split(' ').collect();
@@ -412,8 +400,7 @@ pub fn run_swap_case<T: Node + ?Sized>(header_line: &str, hdr: &Header, src: &mu
         cx.rec.bump("swapcase:multi_swap_no_verdict");
     }
     if let Some((class, detail)) = fails.first() {
-        let class = if sdi_after_swap && matches!(*class, "swap_not_detected" | "frame_modified") { "swap_set_data_inner_unchecked" } else { class };
-        cx.rec.fail(class, detail);
+        cx.fail(class, detail);
         out.failed = true;
     }
     if swaps > 0 {
